@@ -165,7 +165,7 @@ fn mutate(rng: &mut Rng, s: &str) -> String {
 pub fn gen_c12(cx: &mut Ctx, prop: &str) {
     let full = token_alphabet(true);
     let small = token_alphabet(false);
-    let spacings: [&str; 3] = ["", " ", " \u{2003}\t"];
+    let spacings: [&str; 5] = ["", " ", " \u{2003}\t", "\n", " \r\n"];
     // length 1 and 2 over the full alphabet under three spacings
     for a in &full {
         emit_text(cx, prop, a, is_keywordish(a));
@@ -259,6 +259,16 @@ pub fn gen_c12(cx: &mut Ctx, prop: &str) {
         let d = 1 + cx.rng.below(4);
         let s = sentence(&mut cx.rng, d, &names);
         emit_text(cx, prop, &s, true);
+        // the same sentence over several lines: every blank, or one of them, replaced by a line break
+        if cx.rng.below(4) == 0 {
+            emit_text(cx, prop, &s.replace(' ', "\n"), true);
+            emit_text(cx, prop, &format!("{}\n", s), true);
+            if let Some(pos) = s.rfind(' ') {
+                let mut t = s.clone();
+                t.replace_range(pos..pos + 1, "\n");
+                emit_text(cx, prop, &t, true);
+            }
+        }
         if cx.rng.coin() {
             let m = mutate(&mut cx.rng, &s);
             emit_text(cx, prop, &m, true);
